@@ -266,3 +266,10 @@ ENTRIES += [
     B('walker-fallbacks-overlap', HT, "            return attr_flags & cls.ATTR_HTML\n\n        return attribute == 'href'", "            return attr_flags & cls.ATTR_HTML\n\n        return attribute == 'src'", 'C20-D5b'),
     N('walker-table-both-flags', HT, "        'form': {'action': ATTR_HTML},", "        'form': {'action': ATTR_INLINE | ATTR_HTML},"),
 ]
+
+RB = 'wpull/protocol/http/robots.py'
+ENTRIES += [
+    B('regress-5xx-unreadable-body-blank', RB, "                        if response is not None and \\\n                                500 <= response.status_code <= 599:\n", "                        if False:\n", 'C20-D4'),
+    N('5xx-asked-before-download', RB, "                        response = yield from session.start()\n                        yield from session.download(file=file)\n",
+      "                        response = yield from session.start()\n\n                        if 500 <= response.status_code <= 599:\n                            raise ServerError('Server returned error for robots.txt.')\n\n                        yield from session.download(file=file)\n"),
+]
